@@ -104,7 +104,8 @@ pub struct Reqs {
     pub if_req: Vec<String>,
     pub prefixes: Vec<String>,
     /// 0: SliceSignedHeaderRequirements::new, 1: VecSignedHeaderRequirements::new, 2: Vec via add_* calls
-    /// (with an interleaved add/remove of a decoy), 3: NO_ADDITIONAL_SIGNED_HEADERS (only if all empty)
+    /// (with an interleaved add/remove of a decoy), 3: NO_ADDITIONAL_SIGNED_HEADERS (only if all empty), 4: Vec built in stages, 5: Vec with a history (used for a
+    /// validation, then edited down with remove_*)
     pub build: u8,
 }
 
